@@ -1,0 +1,26 @@
+//go:build verif
+
+package saml2
+
+import "sync/atomic"
+
+type verifHookFn func(point string, a, b int64)
+
+var verifHook atomic.Pointer[verifHookFn]
+
+// SetVerifHook installs (or, with nil, removes) a callback invoked at the
+// library's observation points. Only present under the "verif" build tag.
+func SetVerifHook(fn func(point string, a, b int64)) {
+	if fn == nil {
+		verifHook.Store(nil)
+		return
+	}
+	f := verifHookFn(fn)
+	verifHook.Store(&f)
+}
+
+func verifPoint(point string, a, b int64) {
+	if f := verifHook.Load(); f != nil {
+		(*f)(point, a, b)
+	}
+}
